@@ -79,6 +79,7 @@ fn u6_normal() {
 }
 
 //@ obligation: U6.rotid.sound
+//@ cost: heavy
 //@ props: C01 C14 C03
 //@ fns: Matrix3::to_basic_rotation_id Matrix3::transpose
 //@ kind: complete
